@@ -37,6 +37,7 @@ REACH = [
 ]
 ASSUMPTIONS = ["bit-identical reproducibility is established for this machine's torch build with one intra-op thread",
                "two different seeds give different 64x3+ Bernoulli draws (collision probability negligible)"]
+EVAL_COUNTER = "histories_run_in_process"
 MIN_PER_WORKER = 1
 TIMEOUT = {"quick": 900, "thorough": 7200}
 SEEDS = [0, 1, 2 ** 31 - 1, 2 ** 63 - 1, 1234, 42]
